@@ -55,7 +55,10 @@ pub const K_PUSH_SELF_CLONE: u8 = 29;
 pub const K_PUSH_BIG: u8 = 30;
 pub const K_READ_TO_TENDRIL: u8 = 31;
 pub const K_CLONE_FROM: u8 = 32;
-pub const N_KINDS: u8 = 33;
+pub const K_REJOIN_VIA_BYTES: u8 = 33;
+pub const K_TRAIT_EXTRAS: u8 = 34;
+pub const K_READ_BIG: u8 = 35;
+pub const N_KINDS: u8 = 36;
 
 pub fn kind_name(k: u8) -> &'static str {
     match k {
@@ -92,6 +95,9 @@ pub fn kind_name(k: u8) -> &'static str {
         K_PUSH_BIG => "push_big",
         K_READ_TO_TENDRIL => "read_to_tendril",
         K_CLONE_FROM => "clone_from",
+        K_REJOIN_VIA_BYTES => "adjacent Bytes views reinterpreted + push_tendril",
+        K_TRAIT_EXTRAS => "trait impls (Hash/Ord/Borrow/Extend<&Tendril>/FromStr/fmt::Write/…)",
+        K_READ_BIG => "read_to_tendril (big stream)",
         _ => "?",
     }
 }
@@ -244,6 +250,33 @@ pub trait FmtSpec: Format + Sized + 'static {
     fn string_round_trip<A: Atomicity>(t: Tendril<Self, A>) -> Tendril<Self, A> {
         t
     }
+    /// two byte strings, each valid alone, whose concatenation the format has to repair
+    fn seam_pair(_k: u32) -> Option<(Vec<u8>, Vec<u8>)> {
+        None
+    }
+    /// format-specific trait impls (Ord, Borrow, PartialEq<str>, FromStr, fmt::Write, format!, From<&Slice>, as_superset);
+    /// may append to the tendril and its model; Err(detail) on a wrong answer
+    fn extras<A: Atomicity>(_t: &mut Tendril<Self, A>, _model: &mut Vec<u8>, _other: &Tendril<Self, A>, _other_model: &[u8], _k: u32) -> Result<(), String> {
+        Ok(())
+    }
+}
+
+/// FNV-1a as a `Hasher`: `Tendril::hash` must feed it exactly what `<[u8]>::hash` feeds it.
+pub struct Fnv(pub u64);
+impl std::hash::Hasher for Fnv {
+    fn finish(&self) -> u64 {
+        self.0
+    }
+    fn write(&mut self, bytes: &[u8]) {
+        for b in bytes {
+            self.0 = (self.0 ^ *b as u64).wrapping_mul(0x100000001B3);
+        }
+    }
+}
+fn fnv_of<T: std::hash::Hash + ?Sized>(x: &T) -> u64 {
+    let mut h = Fnv(0xcbf29ce484222325);
+    x.hash(&mut h);
+    std::hash::Hasher::finish(&h)
 }
 
 fn classify(k: u32, c: char) -> u32 {
@@ -274,6 +307,25 @@ fn gen_utf8(rng: &mut Rng, len: usize) -> Vec<u8> {
 
 impl FmtSpec for fmt::Bytes {
     const NAME: &'static str = "Bytes";
+    fn extras<A: Atomicity>(t: &mut Tendril<Self, A>, model: &mut Vec<u8>, other: &Tendril<Self, A>, other_model: &[u8], k: u32) -> Result<(), String> {
+        use std::borrow::Borrow;
+        if Ord::cmp(&*t, other) != model[..].cmp(other_model) || PartialOrd::partial_cmp(&*t, other) != Some(model[..].cmp(other_model)) {
+            return Err("cmp / partial_cmp differs from the byte-wise order of the models".into());
+        }
+        let b: &[u8] = (*t).borrow();
+        if b != &model[..] {
+            return Err("Borrow<[u8]> differs from the model".into());
+        }
+        if k % 2 == 0 {
+            let f: Tendril<Self, A> = Tendril::from(other_model);
+            if &*f != other_model {
+                return Err("From<&[u8]> differs from its input".into());
+            }
+            t.push_tendril(&f);
+            model.extend_from_slice(other_model);
+        }
+        Ok(())
+    }
     fn valid(_: &[u8]) -> bool {
         true
     }
@@ -351,6 +403,43 @@ impl FmtSpec for fmt::Bytes {
                 }
                 true
             },
+            K_READ_BIG => {
+                // a long stream (tens of KiB to a MiB, content a function of the position) from a
+                // reader that fills whatever it is offered or delivers fixed-size pieces, and reports
+                // `Interrupted` once, at call number 1 + (c / 64) % 20, or on every third call
+                use tendril::ReadExt;
+                struct R {
+                    size: usize,
+                    pos: usize,
+                    step: usize,
+                    calls: u32,
+                    intr_at: u32,
+                    every_third: bool,
+                }
+                impl std::io::Read for R {
+                    fn read(&mut self, buf: &mut [u8]) -> std::io::Result<usize> {
+                        self.calls += 1;
+                        if self.calls == self.intr_at || (self.every_third && self.calls % 3 == 2) {
+                            return Err(std::io::Error::new(std::io::ErrorKind::Interrupted, "simulated EINTR"));
+                        }
+                        let n = self.step.min(buf.len()).min(self.size - self.pos);
+                        for (k, b) in buf[..n].iter_mut().enumerate() {
+                            *b = ((self.pos + k) as u32).wrapping_mul(31).wrapping_add(7) as u8;
+                        }
+                        self.pos += n;
+                        Ok(n)
+                    }
+                }
+                let size = big_size(op.b % 6, op.c) as usize + if op.c & 32 == 32 { 131040 } else { 0 };
+                let step = [usize::MAX, usize::MAX, 4096, 65536, 1000, 33][(op.c as usize / 2048) % 6];
+                let mut r = R { size, pos: 0, step, calls: 0, intr_at: 1 + (op.c / 64) % 20, every_third: (op.c / 1024) % 2 == 1 && step > 4000 };
+                let res = r.read_to_tendril(t);
+                model.extend((0..r.pos).map(|k| (k as u32).wrapping_mul(31).wrapping_add(7) as u8));
+                if !matches!(res, Ok(n) if n == size) || r.pos != size {
+                    model.extend_from_slice(b"<read_to_tendril stopped before the end of the stream or returned the wrong count>");
+                }
+                true
+            },
             _ => false,
         }
     }
@@ -372,6 +461,18 @@ impl FmtSpec for fmt::Bytes {
 
 impl FmtSpec for fmt::ASCII {
     const NAME: &'static str = "ASCII";
+    fn extras<A: Atomicity>(t: &mut Tendril<Self, A>, model: &mut Vec<u8>, _other: &Tendril<Self, A>, other_model: &[u8], _k: u32) -> Result<(), String> {
+        let s = std::str::from_utf8(model).map_err(|_| "model not ASCII".to_string())?;
+        if !(*t == *s) || (*t == *std::str::from_utf8(other_model).unwrap_or("\u{e9}")) != (&model[..] == other_model) {
+            return Err("PartialEq<str> differs from the model".into());
+        }
+        let u: &Tendril<fmt::UTF8, A> = t.as_superset();
+        let l: &Tendril<fmt::Latin1, A> = t.as_superset();
+        if u.as_bytes().as_ref() as &[u8] != &model[..] || l.as_bytes().as_ref() as &[u8] != &model[..] || &**u != s {
+            return Err("as_superset view differs from the model".into());
+        }
+        Ok(())
+    }
     fn valid(buf: &[u8]) -> bool {
         buf.iter().all(|b| *b < 0x80)
     }
@@ -455,6 +556,61 @@ impl FmtSpec for fmt::Latin1 {
 
 impl FmtSpec for fmt::UTF8 {
     const NAME: &'static str = "UTF8";
+    fn extras<A: Atomicity>(t: &mut Tendril<Self, A>, model: &mut Vec<u8>, other: &Tendril<Self, A>, other_model: &[u8], k: u32) -> Result<(), String> {
+        use std::borrow::Borrow;
+        use std::fmt::Write;
+        if Ord::cmp(&*t, other) != model[..].cmp(other_model) || PartialOrd::partial_cmp(&*t, other) != Some(model[..].cmp(other_model)) {
+            return Err("cmp / partial_cmp differs from the byte-wise order of the models".into());
+        }
+        let b: &[u8] = (*t).borrow();
+        if b != &model[..] {
+            return Err("Borrow<[u8]> differs from the model".into());
+        }
+        let s = std::str::from_utf8(model).map_err(|_| "model not UTF-8".to_string())?.to_string();
+        let o = std::str::from_utf8(other_model).map_err(|_| "model not UTF-8".to_string())?;
+        if !(*t == *s.as_str()) || (*t == *o) != (s == o) {
+            return Err("PartialEq<str> differs from the model".into());
+        }
+        let w: &Tendril<fmt::WTF8, A> = t.as_superset();
+        if w.as_bytes().as_ref() as &[u8] != &model[..] {
+            return Err("as_superset::<WTF8> view differs from the model".into());
+        }
+        match k % 5 {
+            0 => {
+                let f: Tendril<Self, A> = o.parse().map_err(|_| "FromStr failed".to_string())?;
+                if &*f != o {
+                    return Err("FromStr differs from its input".into());
+                }
+                t.push_tendril(&f);
+                model.extend_from_slice(other_model);
+            },
+            1 => {
+                t.write_str(o).map_err(|_| "write_str failed".to_string())?;
+                model.extend_from_slice(other_model);
+            },
+            2 => {
+                write!(t, "{}|{:>3}|{}", o, k, '\u{e9}').map_err(|_| "write! failed".to_string())?;
+                model.extend_from_slice(format!("{}|{:>3}|{}", o, k, '\u{e9}').as_bytes());
+            },
+            3 => {
+                let f: Tendril<Self, A> = Tendril::format(format_args!("{}<{}>{}", s, k, o));
+                if f.as_bytes().as_ref() as &[u8] != format!("{}<{}>{}", s, k, o).as_bytes() {
+                    return Err("Tendril::format differs from format!".into());
+                }
+                *t = f;
+                *model = format!("{}<{}>{}", s, k, o).into_bytes();
+            },
+            _ => {
+                let f: Tendril<Self, A> = Tendril::from(o);
+                if &*f != o {
+                    return Err("From<&str> differs from its input".into());
+                }
+                t.push_tendril(&f);
+                model.extend_from_slice(other_model);
+            },
+        }
+        Ok(())
+    }
     fn valid(buf: &[u8]) -> bool {
         std::str::from_utf8(buf).is_ok()
     }
@@ -537,6 +693,12 @@ impl FmtSpec for fmt::UTF8 {
 
 impl FmtSpec for fmt::WTF8 {
     const NAME: &'static str = "WTF8";
+    fn seam_pair(k: u32) -> Option<(Vec<u8>, Vec<u8>)> {
+        let (mut l, mut r) = (vec![], vec![]);
+        enc_generalized(0xD800 + (k % 0x400), &mut l);
+        enc_generalized(0xDC00 + ((k / 7) % 0x400), &mut r);
+        Some((l, r))
+    }
     fn valid(buf: &[u8]) -> bool {
         wtf8_valid(buf)
     }
@@ -648,6 +810,10 @@ pub fn gen_history<F: FmtSpec>(rng: &mut Rng, max_ops: usize) -> Vec<Op> {
             K_READ_TO_TENDRIL
         } else if rng.chance(1, 30) {
             K_CLONE_FROM
+        } else if rng.chance(1, 25) {
+            K_REJOIN_VIA_BYTES
+        } else if rng.chance(1, 30) {
+            K_TRAIT_EXTRAS
         } else {
             kind
         };
@@ -696,6 +862,10 @@ pub fn gen_history<F: FmtSpec>(rng: &mut Rng, max_ops: usize) -> Vec<Op> {
                 c = *rng.pick(&['a' as u32, 'Z' as u32, 0xE9, 0xFF, 0x100, 0x4E2D, 0x1F600, 0x7F, 0x80, 0])
             },
             K_EXTEND_WITH_BYTE => b = pick_len(rng).min(64) as u32,
+            K_REJOIN_VIA_BYTES | K_TRAIT_EXTRAS => {
+                c = rng.below(1 << 20) as u32;
+                data = vec![rng.below(POOL) as u8];
+            },
             _ => {},
         }
         ops.push(Op { kind, a, b, c, data });
@@ -708,13 +878,17 @@ pub fn gen_big_history<F: FmtSpec>(rng: &mut Rng) -> Vec<Op> {
     let n = rng.range(3, 10);
     let mut ops = Vec::with_capacity(n);
     for _ in 0..n {
-        let kind = *rng.pick(&[K_PUSH_BIG, K_PUSH_BIG, K_PUSH_BIG, K_RESERVE, K_WITH_CAPACITY, K_CLONE, K_TRY_SUBTENDRIL, K_TRY_POP_FRONT, K_TRY_POP_BACK, K_PUSH_TENDRIL, K_DROP, K_TRY_PUSH_BYTES, K_PUSH_SELF_CLONE, K_SEND_ROUND_TRIP, K_EXTEND_WITH_BYTE]);
+        let kind = *rng.pick(&[K_READ_BIG, K_READ_BIG, K_PUSH_BIG, K_PUSH_BIG, K_PUSH_BIG, K_RESERVE, K_WITH_CAPACITY, K_CLONE, K_TRY_SUBTENDRIL, K_TRY_POP_FRONT, K_TRY_POP_BACK, K_PUSH_TENDRIL, K_DROP, K_TRY_PUSH_BYTES, K_PUSH_SELF_CLONE, K_SEND_ROUND_TRIP, K_EXTEND_WITH_BYTE]);
         let a = rng.below(3) as u32;
         let mut b = rng.below(3) as u32;
         let mut c = rng.below(41) as u32;
         let mut data = vec![];
         match kind {
             K_PUSH_BIG => b = rng.below(BIG_BASES.len()) as u32,
+            K_READ_BIG => {
+                b = rng.below(6) as u32;
+                c = rng.below(1 << 14) as u32;
+            },
             K_RESERVE | K_WITH_CAPACITY => b = big_size(rng.below(BIG_BASES.len()) as u32, c),
             K_EXTEND_WITH_BYTE => b = big_size(rng.below(4) as u32, c),
             K_TRY_PUSH_BYTES => {
@@ -1069,7 +1243,7 @@ pub fn run_history<F: FmtSpec, A: Atomicity>(ops: &[Op], obs: &mut dyn Observer)
                 let (t, m) = (&mut pool[i], &mut model[i]);
                 F::deref_mut_write(t, m, op.b, op.c as u8);
             },
-            K_WRITE_ALL | K_EXTEND_WITH_BYTE | K_READ_TO_TENDRIL => {
+            K_WRITE_ALL | K_EXTEND_WITH_BYTE | K_READ_TO_TENDRIL | K_READ_BIG => {
                 let (t, m) = (&mut pool[i], &mut model[i]);
                 F::bytes_only(t, m, op);
             },
@@ -1113,6 +1287,79 @@ pub fn run_history<F: FmtSpec, A: Atomicity>(ops: &[Op], obs: &mut dyn Observer)
                 let eq = pool[i] == pool[j];
                 if eq != (model[i] == model[j]) {
                     return Err(ctx(format!("== with slot {j} returned {eq}")));
+                }
+            },
+            K_REJOIN_VIA_BYTES => {
+                // The contents of two valid tendrils laid out back to back in ONE byte buffer, the two
+                // halves taken as views of it and reinterpreted in the pool's format, then joined with
+                // push_tendril (adjacent views of one shared buffer: the zero-copy path).  The result has
+                // to be what joining two unrelated tendrils with these contents gives.
+                let mut left = model[i].clone();
+                let mut right = model[j].clone();
+                if op.c & 1 == 1 {
+                    if let Some((l, r)) = F::seam_pair(op.c >> 2) {
+                        F::concat(&mut left, &l);
+                        let mut rr = r;
+                        F::concat(&mut rr, &right);
+                        right = rr;
+                    }
+                }
+                let mut whole = left.clone();
+                whole.extend_from_slice(&right);
+                let parent: Tendril<fmt::Bytes, A> = Tendril::from_slice(&whole[..]);
+                let h = parent.subtendril(0, left.len() as u32);
+                let t = parent.subtendril(left.len() as u32, right.len() as u32);
+                let keep = if op.c & 2 == 2 { Some(parent) } else { drop(parent); None };
+                match (h.try_reinterpret::<F>(), t.try_reinterpret::<F>()) {
+                    (Ok(mut h), Ok(t)) => {
+                        h.push_tendril(&t);
+                        let mut expected = left.clone();
+                        F::concat(&mut expected, &right);
+                        if t.as_bytes().as_ref() as &[u8] != &right[..] {
+                            return Err(ctx(format!("right-hand view changed by push_tendril: {:?}, expected {:?}", t.as_bytes().as_ref() as &[u8], right)));
+                        }
+                        if let Some(p) = &keep {
+                            if p.as_ref() as &[u8] != &whole[..] {
+                                return Err(fail("other-tendril-changed", format!("op #{oi}: the byte buffer both views came from changed: {:?}, expected {:?}", p.as_ref() as &[u8], whole)));
+                            }
+                        }
+                        let dst = op.data.first().map(|d| *d as usize % POOL).unwrap_or(i);
+                        pool[dst] = h;
+                        model[dst] = expected;
+                    },
+                    _ => return Err(fail("checked-op-result-differs", format!("op #{oi}: a view holding the bytes of a valid {} tendril was not accepted by try_reinterpret", F::NAME))),
+                }
+            },
+            K_TRAIT_EXTRAS => {
+                if fnv_of(&pool[i]) != fnv_of(&model[i][..]) {
+                    return Err(ctx("Hash feeds the hasher something else than the byte slice does".into()));
+                }
+                {
+                    let c = pool[i].clone();
+                    let fresh = Tendril::<F, A>::try_from_byte_slice(&model[i]).map_err(|_| ctx("try_from_byte_slice rejected a live tendril's content".into()))?;
+                    if c.is_shared_with(&pool[i]) != c.is_shared() || (model[i].len() > 8 && !c.is_shared()) || fresh.is_shared_with(&pool[i]) || fresh.is_shared_with(&c) {
+                        return Err(ctx("is_shared_with: a clone that sits on the heap shares its original's buffer, a fresh copy never does".into()));
+                    }
+                }
+                if i != j {
+                    let dst = op.data.first().map(|d| *d as usize % POOL).unwrap_or(i);
+                    let mut t: Tendril<F, A> = if op.c % 2 == 0 { [&pool[i], &pool[j]].into_iter().collect() } else { pool[i].clone() };
+                    let mut m = vec![];
+                    F::concat(&mut m, &model[i]);
+                    if op.c % 2 == 0 {
+                        let rhs = model[j].clone();
+                        F::concat(&mut m, &rhs);
+                    }
+                    t.extend([&pool[j], &pool[i]].into_iter());
+                    let (mj, mi) = (model[j].clone(), model[i].clone());
+                    F::concat(&mut m, &mj);
+                    F::concat(&mut m, &mi);
+                    let (oth, om) = (pool[j].clone(), model[j].clone());
+                    if let Err(e) = F::extras(&mut t, &mut m, &oth, &om, op.c / 2) {
+                        return Err(fail("checked-op-result-differs", format!("op #{oi} on slot {i} ({}): {e}", F::NAME)));
+                    }
+                    pool[dst] = t;
+                    model[dst] = m;
                 }
             },
             _ => {},
